@@ -108,8 +108,18 @@ def filter_roles(prog):
     return ff, fpaths, wrappers
 
 
+def f2_dropped_datagram_leaves_nothing(ctx, rule="F2"):
+    """F2 (second half): `a refusal drops the packet and nothing else` also means the reader survives the drop"""
+    from .common import datagram_decoder_none_leaves_nothing
+    rows, n = datagram_decoder_none_leaves_nothing(ctx.prog)
+    ctx.floor(rule, "datagram decoders (codecs of a UdpFramed)", 2, n)
+    for (d, where, ok, detail) in rows:
+        ctx.ob(rule, d.defp, "dropped-datagram-leaves-nothing-behind", where, ok, detail)
+
+
 def run(ctx):
     f5_association_removed_only_by_expiry(ctx)
+    f2_dropped_datagram_leaves_nothing(ctx)
     prog = ctx.prog
     FT_PATH, FT = filter_type(prog)
     if FT_PATH is None:
